@@ -337,8 +337,10 @@ def _prefix_call(sign):
         node = func_ast(f)
         # the prefix / noop pass: the top-level loop over `tokens2` whose body assigns the prefix-operator type (anchored by
         # content, not by position: earlier passes may be rewritten freely)
+        def sets_token_type(n):
+            return any(isinstance(a, pyast.Assign) and any(isinstance(t_, pyast.Attribute) and t_.attr == 'ttype' for t_ in a.targets) for a in pyast.walk(n))
         loops = [n for n in node.body if isinstance(n, pyast.While) and pyast.unparse(n.test).replace(' ', '') == 'tokens2.moveNext()'
-                 and 'TOK_TYPE_OP_PRE' in pyast.unparse(n)]
+                 and sets_token_type(n) and 'TOK_SUBTYPE_MATH' in pyast.unparse(n)]
         if len(loops) != 1:
             from pyvc.sym import Unsupported
             raise Unsupported('the prefix pass of getTokens is no longer a `while tokens2.moveNext()` loop: the step contract does not apply')
@@ -351,6 +353,17 @@ def _prefix_call(sign):
         tokens2.index = 0                     # the previous token has been handled; the next iteration sees `cur`
         env = Env({'self': tokenizer.ExcelParser(), 'tokens2': tokens2}, {}, f.__globals__, func=f)
         env.argnames = ['self']
+        # helpers and tables the pass uses may be set up before it (closures, lookup tables): run those statements, then restore the state
+        state = dict(env.loc)
+        for st in node.body:
+            if st is loop:
+                break
+            if isinstance(st, pyast.FunctionDef) or (isinstance(st, pyast.Assign) and isinstance(st.value, (pyast.Dict, pyast.Tuple, pyast.List, pyast.Set, pyast.Constant, pyast.Attribute))):
+                try:
+                    it.stmt(st, env)
+                except Exception:      # noqa
+                    pass
+        env.loc.update(state)
         it.interpreted.add('xlcalculator.tokenizer:ExcelParser.getTokens(loop 3)')
         it.s_While(loop, env)
         return cur.ttype
